@@ -101,6 +101,49 @@ def punning_items():
             for j in range(0, len(calls), 60)]
 
 
+def bigseg_items(tier):
+    """Data segments longer than the largest object a C89 compiler must accept (32767 bytes), of lengths around that number and its
+    multiples: active ones land whole at their offsets, memory.init copies from any source offset (within one such stretch, across one,
+    across two)."""
+    pat = lambda n, k: [(i * 7 + 3 * k + (i >> 8)) % 251 for i in range(n)]
+    g = lambda k: ["local.get", k]
+    m = {"types": [{"p": ["i32"], "r": ["i32"]}, {"p": ["i32", "i32", "i32"], "r": []}],
+         "funcs": [{"type": 0, "locals": [], "body": [g(0), ["i32.load8_u", 0, 0], ["end"]]},
+                   {"type": 0, "locals": [], "body": [g(0), ["i32.load", 0, 0], ["end"]]},
+                   {"type": 1, "locals": [], "body": [g(0), g(1), g(2), ["memory.init", 2], ["end"]]},
+                   {"type": 1, "locals": [], "body": [g(0), g(1), g(2), ["memory.init", 0], ["end"]]}],
+         "memory": {"min": 4, "max": 4},
+         "data": [{"mode": "active", "offset": ["i32.const", b32(64)], "bytes": pat(65534, 1)},          # 2 x 32767
+                  {"mode": "active", "offset": ["i32.const", b32(66000)], "bytes": pat(32767, 2)},
+                  {"mode": "passive", "bytes": pat(70001, 3)},
+                  {"mode": "active", "offset": ["i32.const", b32(99000)], "bytes": pat(32768, 4)}],
+         "datacount": True, "uses_memory_init": True,
+         "exports": [{"name": n_, "kind": "func", "idx": i_} for i_, n_ in enumerate(("b", "w", "init", "init0"))] + [{"name": "memory", "kind": "memory", "idx": 0}]}
+    call = lambda e, *a: {"op": "call", "inst": 1, "export": e, "args": [arg("i32", x) for x in a]}
+    script = [{"op": "instantiate", "binds": {"mem": 0, "table": 0, "globals": []}}]
+    quick = tier == "quick"          # (every step carries the whole memory through the model: the quick tier takes the decisive ones)
+    for base, n in ((64, 65534), (66000, 32767), (99000, 32768)):
+        pts = {base + 32766, base + 32767, base + n - 1, base + n} if quick else \
+              {base, base + 1, base + 32765, base + 32766, base + 32767, base + 32768, base + n - 2, base + n - 1, base + n}
+        for a in sorted(pts & set(range(base, base + n + 1))):
+            script.append(call("b", a))
+        if not quick:
+            script.append(call("w", base + n - 4))
+    D = 140000
+    for src, n in (((1, 40000), (32760, 20), (30000, 40001)) if quick else
+                   ((0, 70001), (1, 40000), (32767, 10), (32760, 20), (32766, 2), (30000, 40001), (65530, 10), (1, 70000), (70001, 0), (65534, 4467))):
+        script.append(call("init", D, src, n))
+        pts = {D + n - 1, D + (32767 - src) % 32767, D + (65534 - src) % 65534} if quick else \
+              {D, D + 1, D + n - 1, D + n, D + (32767 - src) % 32767, D + (32767 - src) % 32767 - 1, D + (65534 - src) % 65534}
+        for a in sorted(pts & set(range(D, D + max(n, 1) + 1))):
+            script.append(call("b", a))
+        if not quick:
+            script.append(call("w", D + max(n - 4, 0)))
+    # an active segment is empty once applied: only the empty copy is defined
+    script += [call("init0", D, 0, 0), call("init0", D, 0, 1)]
+    return [{"id": "bigseg", "module": m, "script": script}]
+
+
 def history(rng, maxpages, length):
     """A seeded history of memory operations; pages is tracked only to aim at in-bounds
     addresses (the model, not this tracker, decides what is defined)."""
@@ -285,6 +328,7 @@ def main():
             sc.append({"op": "call", "inst": 1, "export": "size", "args": []})
         items.append({"id": "biggrow%d" % j, "module": big, "script": sc})
     items += punning_items()
+    items += bigseg_items(tier)
     # optimising builds of both compilers (type-based alias analysis is on from -O2)
     builds += [{"name": "gcc-O2", "cc": "gcc", "cflags": ("-O2",)}]
     if tier == "quick":
